@@ -4,7 +4,9 @@ import (
 	"bytes"
 	"errors"
 	"fmt"
+	"time"
 
+	"github.com/massnetorg/mass-core/wire"
 	"massnet.org/mass-wallet/masswallet"
 )
 
@@ -207,7 +209,7 @@ func runC07(w *World, p map[string]int) {
 	// the chain keeps moving while the rescan runs
 	post := t.Int(param(p, "post", 14))
 	for i := 0; i < post && len(w.Violations) == 0; i++ {
-		switch t.Weighted([]int{8, 4, 8}) {
+		switch t.Weighted([]int{8, 4, 8, 1}) {
 		case 0:
 			w.MineOnTip(t, 70)
 		case 1:
@@ -215,6 +217,15 @@ func runC07(w *World, p map[string]int) {
 			w.Stat("probe.reorg_during_or_after_rescan")
 		case 2:
 			w.runSteps(1 + t.Int(15))
+		case 3:
+			// the restoring node is restarted: an unfinished rescan resumes from
+			// its persisted cursor, with the chain moving meanwhile
+			if ls2, e := y.ListWallets(); e == nil && listed(ls2) != nil && !listed(ls2).Ready {
+				w.Stat("probe.restart_while_importing")
+			}
+			if !restartMoving(w, y, "C07") {
+				return
+			}
 		}
 		if ls2, e := y.ListWallets(); e == nil && listed(ls2) != nil && !listed(ls2).Ready {
 			w.Stat("probe.chain_moved_while_importing")
@@ -459,6 +470,29 @@ func runC08(w *World, p map[string]int) {
 				return
 			}
 			w.Stat("check.survivor_unchanged")
+		}
+	}
+	// survivors keep their deposit histories and can still sign for their
+	// coins (also for coins of transactions they shared with the removed wallet)
+	for _, id := range inst.SortedWalletIDs() {
+		ws := inst.Wallets[id]
+		l := w.CheckWallet(inst, ws, "C08")
+		if l == nil || len(w.Violations) > 0 {
+			return
+		}
+		w.CheckGames(inst, ws, l, "C08")
+		if len(w.Violations) > 0 {
+			return
+		}
+		if c := newSpendCtx(w, inst, ws, map[wire.OutPoint]time.Time{}, "C08"); c != nil {
+			if _, err := inst.Use(ws.ID, true); err == nil {
+				for k := 0; k < 2 && len(w.Violations) == 0; k++ {
+					c.signOne(t, "C08")
+				}
+			}
+		}
+		if len(w.Violations) > 0 {
+			return
 		}
 	}
 	// the chain goes on (reorgs across blocks that held shared transactions)
